@@ -23,9 +23,14 @@ from sx.kernel import Enum, Obj, Ok, Err, Some, NONE, SStr, SVec
 from sx.sym import And, Or, Not
 
 OPS = ["set_order_after", "set_order_before", "clear_order", "init_order"]
+# XmlItem dispatches the order operations to the wrapped item; every variant except Unparsed (which goes through its entity)
+VARIANTS = {"Attribute": "XmlAttribute", "CData": "XmlCData", "CharReference": "XmlCharReference", "Comment": "XmlComment",
+            "DeclarationAttList": "XmlDeclarationAttList", "Document": "XmlDocument", "DocumentType": "XmlDocumentTypeDeclaration",
+            "Element": "XmlElement", "Entity": "XmlEntity", "Namespace": "XmlNamespace", "Notation": "XmlNotation",
+            "PI": "XmlProcessingInstruction", "Text": "XmlText", "Unexpanded": "XmlUnexpandedEntityReference"}
 
 
-def build(I, k):
+def build(I, k, variant=None):
     """k attached items + 1 detached; returns (items, ordering, constraints)"""
     ids = [z3.BitVec("id%d" % i, 64) for i in range(k + 1)]
     version = z3.BitVec("version", 64)
@@ -37,7 +42,9 @@ def build(I, k):
         cv = z3.BitVec("cver%d" % i, 64)
         info = K.mk_obj("ContextInfo", K.INFO, id=ids[i], order_cache=cache, order_version=cv)
         ctx = K.mk_obj("Context", K.INFO, info=info, ordering=ordering)
-        item = K.mk_obj("XmlElement", K.INFO, context=ctx)
+        item = K.mk_obj(VARIANTS.get(variant, "XmlElement"), K.INFO, context=(Some(ctx) if variant == "Document" else ctx))
+        if variant is not None:
+            item = K.mk_enum("XmlItem", K.INFO, variant, item)
         items.append(item)
         true_key = (i + 1) if i < k else 0
         cons.append(z3.ULE(cv, version))
@@ -72,27 +79,29 @@ def expected(I, op, k, m, anchor, ids):
 
 
 def work(job):
-    op, k, m, timeout_s = job
-    out = {"job": job[:3], "status": "holds", "paths": 0, "queries": 0, "error": None}
+    op, k, m, timeout_s = job[:4]
+    variant = job[4] if len(job) > 4 else None
+    out = {"job": job[:3] + ((variant,) if variant else ()), "status": "holds", "paths": 0, "queries": 0, "error": None}
     t0 = time.time()
     try:
         I = K.new_interp("debug")
         anchor = z3.BitVec("anchor", 64)
-        _, _, _, cons = build(I, k)
+        _, _, _, cons = build(I, k, variant)
         I.assume(cons)
 
         def thunk(I):
-            items, ordering, ids, _ = build(I, k)
-            before = [I.try_repo_method(it, "order", []) for it in items]
-            # re-build: order() refreshed caches; use a fresh state for the operation itself
-            items, ordering, ids, _ = build(I, k)
+            items, ordering, ids, _ = build(I, k, variant)
             args = [anchor] if op in ("set_order_after", "set_order_before") else []
             r = I.try_repo_method(items[m], op, args)
             after = [I.try_repo_method(it, "order", []) for it in items]
             seq, ok = expected(I, op, k, m, anchor, ids)
             inv = []
             for it in items:
-                info = it.fields["context"].fields["info"]
+                inner = it.fields[0] if isinstance(it, Enum) else it
+                cx = inner.fields["context"]
+                if isinstance(cx, Enum):
+                    cx = cx.fields[0]
+                info = cx.fields["info"]
                 inv.append((info.fields["order_cache"], info.fields["order_version"]))
             return (r, after, seq, ok, ordering.fields["version"], inv, len(ordering.fields["order"]))
         if op == "init_order" and m < k:
@@ -129,7 +138,7 @@ def work(job):
             idv = [K.model_int(mdl, x) for x in ids]
             av = K.model_int(mdl, anchor)
             out["status"] = "sat"
-            w = {"op": op, "k": k, "mover": m, "anchor_index": idv.index(av) if av in idv else None}
+            w = {"op": op, "k": k, "mover": m, "anchor_index": idv.index(av) if av in idv else None, "variant": variant}
             if p["kind"] == "panic":
                 w["model"] = "panic: " + p["msg"]
             else:
@@ -156,6 +165,14 @@ def work(job):
 def replay_case(rp, w):
     """through the DOM: <r> with k element children c0..; the operation is realised by insert_before / remove_child /
     append_child on them; the observed order is the order in which /r/* returns the children (sorted by order keys)"""
+    if w.get("variant"):
+        # dispatch through XmlItem: replayed through the DOM (insert_before) for the node kinds the DOM can create
+        if w["variant"] not in ("CData", "Comment", "Element") or w["op"] != "set_order_before" or w.get("anchor_index") is None:
+            return {"unreplayable": True}
+        rr = rp.run({"op": "dom_order", "variant": w["variant"], "mover": w["mover"], "anchor": w["anchor_index"]})
+        rr["violates"] = bool(rr.get("ok")) and rr.get("child_list") != rr.get("by_order_keys")
+        rr["why"] = "children are %s but the order keys sort them as %s" % (rr.get("child_list"), rr.get("by_order_keys"))
+        return rr
     rr = rp.run({"op": "order", "k": w["k"], "what": w["op"], "mover": w["mover"], "anchor": w.get("anchor_index")})
     if "keys" in rr and "spec_sequence" in w:
         seq = w["spec_sequence"]
@@ -198,12 +215,18 @@ def main():
         for op in OPS:
             for m in range(0, k + 1):
                 jobs.append((op, k, m, timeout_s))
+    # the per-variant dispatch tables of XmlItem (k = 2: every item is wrapped in the variant)
+    for variant in VARIANTS:
+        for op in ("set_order_after", "set_order_before", "clear_order"):
+            for m in (0, 2):
+                jobs.append((op, 2, m, timeout_s, variant))
     with mp.Pool(args.jobs) as pool:
         results = pool.map(work, jobs, chunksize=1)
     reported = set()
     for res in results:
-        op, k, m = res["job"]
-        oid = "C14.s.%s.k%d.%s" % (op, k, "detached" if m == k else "item%d" % m)
+        op, k, m = res["job"][:3]
+        var = res["job"][3] if len(res["job"]) > 3 else None
+        oid = "C14.s.%s.k%d.%s%s" % (op, k, "detached" if m == k else "item%d" % m, (".XmlItem::" + var) if var else "")
         rep.queries += res["queries"]
         rep.extra["paths"] = rep.extra.get("paths", 0) + res["paths"]
         rep.functions.update(res.get("fns", {}))
